@@ -21,7 +21,7 @@ ASSUMPTIONS = [
 ]
 SHARDS = {"quick": 4, "thorough": 16}
 
-FAMILIES = ["seq-int", "zero-padded", "uuid-scattered", "uuid-sequential", "email", "two-field"]
+FAMILIES = ["seq-int", "zero-padded", "uuid-scattered", "uuid-sequential", "email", "two-field", "builtin-names"]
 SALTS = [None, "", "s", "exp_2024_checkout_button_colour_v3", "é-salt", "A", "B", "salt1", "salt2", "x" * 64,
          "https://exp.example/checkout/v1", "https://exp.example/checkout/v2", "a /* b */ c1", "a /* b */ c2", "{uid}", "%s"]
 REGIONS = ["EU-W", "EU-E", "US-W", "US-E", "APAC"]
@@ -47,6 +47,9 @@ def _units(family, offset, n):
         return [{"uid": "user%d@%s" % (offset + i, doms[(offset + i) % 3])} for i in range(n)]
     if family == "two-field":
         return [{"region": REGIONS[(offset + i) % 5], "uid": (offset + i) // 5} for i in range(n)]
+    if family == "builtin-names":
+        # a multi-field key whose fields are named like Python builtins, one of them the other plus an underscore (id / id_)
+        return [{"id": (offset + i) // 5, "id_": REGIONS[(offset + i) % 5], "type": "t%d" % ((offset + i) % 3)} for i in range(n)]
     raise ValueError(family)
 
 
@@ -80,6 +83,8 @@ def cases(draw, n):
     case = {"cond": draw(st.sampled_from([0, 0, 1, 2, 3, 4])), "second": draw(st.sampled_from(["fresh", "recompile", "recompile"])), "family": fam, "offset": draw(st.sampled_from([0, 1, 1000, 10 ** 6, 10 ** 9, 123456789, 2 ** 31, 10 ** 12, 2 ** 53 - 7, 2 ** 60,
                                                            2 ** 63 - 200000, 1541815603606036480, 10 ** 24])), "weights": ws,
             "salts": [s1, s2], "n": n}
+    if fam == "builtin-names" and case["cond"] == 3:
+        case["cond"] = 1
     if len(ws) >= 3 and draw(st.integers(0, 3)) == 0:
         # a label declared on several slices owns the sum of its slices (also 1 vs 1.0, which compare equal)
         pool = draw(st.sampled_from([["control", "treatment"], ["A", "B", "C"], [1, 1.0, "x"]]))
@@ -90,10 +95,10 @@ def cases(draw, n):
 def _text(case, salt, ws):
     labels = [M.dec(x) for x in case["labels"]] if case.get("labels") else ["g%d" % j for j in range(len(ws))]
     body = M.ret([(M.lit_of(l), w) for l, w in zip(labels, ws)])
-    sp = ["region", "uid"] if case["family"] == "two-field" else ["uid"]
+    sp = ["region", "uid"] if case["family"] == "two-field" else ["id", "id_", "type"] if case["family"] == "builtin-names" else ["uid"]
     if case.get("cond"):
         # the splitting field is ALSO read by a condition (that never diverts this population): still part of the key
-        f = "region" if case["family"] == "two-field" and case["cond"] == 2 else "uid"
+        f = "region" if case["family"] == "two-field" and case["cond"] == 2 else "id" if case["family"] == "builtin-names" else "uid"
         body = M.if_([(M.cmp_(M.ident(f), "in", M.tup([M.lit_str("qa-account-1"), M.lit_str("qa-account-2")])),
                        M.ret([(M.lit_str("qa"), "1")]))], body)
     if case.get("cond") == 3:
@@ -118,6 +123,10 @@ def _text(case, salt, ws):
         inner = body["else"]
         body = M.if_([(M.cmp_(I("region"), "in", M.tup([S(r) for r in EXCLUDED_REGIONS])),
                        M.if_([(M.cmp_(I("uid"), "<", M.lit_int("0")), M.ret([(S("qa"), "1")]))], None))], inner)
+    if case.get("cond") == 6:
+        # no splitter fields at all (with or without a salt): the draw is random by weight, so the population still splits in
+        # proportion (the global generator is seeded by the harness: a pure function of the case)
+        sp = None
     q = "'" if salt is not None and '"' in salt else '"'
     return M.render(M.program("pop", body, salt=salt, splitters=sp, salt_q=q))
 
@@ -188,6 +197,10 @@ def judge(case):
     sut.compile_text(M.render(M.program("pop", M.ret([(M.lit_str("by%d" % j), w) for j, w in enumerate(list(reversed(ws)) + ["3"])]),
                                          salt="bystander", splitters=["region", "uid"] if case["family"] == "two-field" else ["uid"])))
     tags.append("second-salt-via:" + mode)
+    if case.get("cond") == 6:
+        import random
+
+        random.seed(case["offset"] * 31 + len(ws))  # one seeding for both evaluations: two different stretches of the stream
     for si, salt in enumerate(case["salts"]):
         tags.append("salt:" + ("none" if salt is None else "empty" if salt == "" else "non-ascii" if not salt.isascii() else "ascii"))
         if mode == "fresh":
@@ -263,7 +276,7 @@ def fixed_cases(n):
                "salts": [s2, s1], "n": n}
     yield {"second": "fresh", "family": "seq-int", "offset": 0, "weights": ["2", "1", "1", "2"], "salts": ["A", "B"], "n": n,
            "labels": [M.enc(x) for x in ["control", "treatment", "holdout", "treatment"]]}
-    for fam, c in (("seq-int", 1), ("email", 1), ("two-field", 2), ("two-field", 1), ("uuid-sequential", 1), ("zero-padded", 3), ("two-field", 3), ("seq-int", 4), ("email", 4), ("two-field", 5)):
+    for fam, c in (("seq-int", 1), ("email", 1), ("two-field", 2), ("two-field", 1), ("uuid-sequential", 1), ("zero-padded", 3), ("two-field", 3), ("seq-int", 4), ("email", 4), ("two-field", 5), ("builtin-names", 0), ("builtin-names", 1), ("seq-int", 6), ("email", 6)):
         yield {"cond": c, "second": "fresh", "family": fam, "offset": 5, "weights": ["1", "3"], "salts": ["A", "B"], "n": n}
     yield {"second": "fresh", "family": "email", "offset": 7, "weights": ["1", "2", "1"], "salts": ["A", "B"], "n": n,
            "labels": [M.enc(x) for x in ["B", "B'", '"B']]}
